@@ -28,6 +28,19 @@ CHECKS = {
         technique="Coq proof (byte-level parse o build = id, UTF-8 arithmetic, dict lookups via the C16 refinement, frame property of the C16 machine) + differential correspondence over decode histories",
         design="§4 C01",
     ),
+    "C02": dict(
+        text=("Coq theorems about the whole receive path (gate, decode of the C01 byte-level model under the except clause "
+              "generated from ssdp.py and the installed aiohttp class hierarchy, then the five protocol endpoints: advertisement "
+              "listener, search listener, both sockets of the combined listener with the C03 tracker, the server's search "
+              "responder with its MX clamp and randrange range): for every byte string, sender, clock reading, tracker state and "
+              "oracle answer datagram_received returns normally; a datagram that is not a well-formed SSDP message is dropped "
+              "and leaves the tracker unchanged; everything build_ssdp_packet emits is dispatched; the tracker invariant "
+              "survives any datagram; the two executable clauses hold of every run. The model is run against the real "
+              "datagram_received of long-lived endpoint instances on byte-, token- and header-level mutations of valid messages, "
+              "plus an implementation-only volume search for escaping exceptions."),
+        technique="Coq proof (exception-flow case analysis over the composed C01/C03 models, generated except clause and constants) + differential correspondence + implementation-only search for clause 1",
+        design="§4 C02",
+    ),
     "C03": dict(
         text=("Coq theorems by induction over arbitrary histories of the SSDP device tracker (search responses, alive / update "
               "/ byebye / other advertisements, M-SEARCH echoes, purges; arbitrary non-monotone time stamps, any devices, types, "
@@ -106,6 +119,19 @@ CHECKS = {
               "variable-subset assignments x all response positions x a second service."),
         technique="Coq proof (invariant + induction over schedules, refinement of handler state to history functions, simulation for erasure) + differential correspondence on a stepped asyncio loop",
         design="§4 C11",
+    ),
+    "C13": dict(
+        text=("For every device tree and every history of M-SEARCH datagrams, clock advances and stops in the stated domain, "
+              "machine-checked theorems about an executable model of the SSDP server (as repaired) show: the response table equals "
+              "the UDA table (ssdp:all 1+2d+k, rootdevice, UUID, type of equal or lower version echoing the request, else nothing); "
+              "each answer is sent exactly once within the MX window to the requester; the pairs advertised with ssdp:alive "
+              "round-robin once per announce interval and revoked with ssdp:byebye on stop are exactly the ssdp:all pairs; every "
+              "USN begins with the UUID of the described device; every emitted message, once decoded (C01's round trip is an "
+              "explicit, named premise), is accepted by the C03 tracker model as that device at base_uri + device_url. Tied to "
+              "/repo by tables regenerated from server.py and by differential runs of the real responder and announcer in virtual "
+              "time, every emitted datagram fed to a real SsdpListener."),
+        technique="Coq proof (invariant-based induction over histories tying a monitor automaton to the model's pending timers; composition with the C03 model) + generated tables + virtual-time differential correspondence",
+        design="§4 C13",
     ),
     "C15": dict(
         text=("Coq theorems over all histories of SUBSCRIBE, renewal, UNSUBSCRIBE, variable assignments, clock advances, NOTIFY "
